@@ -19,6 +19,9 @@ func oracleLoop(c *Case, idx int, out *childOut) {
 		return
 	}
 	bad := func(clause, detail string) {
+		if c.Reuse != "" {
+			detail = fmt.Sprintf("round %d on the same %s object: %s", c.Round, c.Reuse, detail)
+		}
 		out.Violations = append(out.Violations, lib.Violation{Clause: clause, Case: idx, Detail: c.Loop + ": " + detail, Replay: *c, Key: clause + ":" + c.Loop})
 	}
 	n := len(t.Start)
@@ -156,7 +159,7 @@ func oracleLoop(c *Case, idx int, out *childOut) {
 		if len(t.EchoSeq) < due {
 			bad("message-lost-while-connected", fmt.Sprintf("long-lived connection: %d numbered messages were sent at least 1 s before the cancellation, only %d arrived at the far end", due, len(t.EchoSeq)))
 		}
-		if len(t.SentAt) < int(c.Stay/int64(400*ms))-8 {
+		if len(t.SentAt) < int(c.Stay/int64(400*ms))-8 || (first >= 0 && len(t.SentAt) == 0) {
 			bad("message-lost-while-connected", fmt.Sprintf("long-lived connection: only %d messages could be passed in %s (one is offered every 300 ms)", len(t.SentAt), fmtDur(c.Stay)))
 		}
 	}
